@@ -57,6 +57,9 @@ WHAT = {
 }
 
 
+STATE = {}
+
+
 def is_reset(r):
     return r.get("a") == "Reset"
 
@@ -286,8 +289,20 @@ def validate_batches(ck, trace, nh, name, quirks, rejected):
         for attempt in range(3):
             p = os.path.join(ck.out, "batch_%s_%d_%d.ndjson" % (name, i, attempt))
             core.write_ndjson(p, cur)
-            v = ck.validate(SPEC, "ChainActionsTrace", "ChainActionsTrace.cfg", p, constants=tconsts(nh),
+            c = tconsts(nh)
+            if STATE.get("merge_repaired"):
+                c["F3cRepaired"] = "TRUE"
+            v = ck.validate(SPEC, "ChainActionsTrace", "ChainActionsTrace.cfg", p, constants=c,
                             name="val_%s_%d_%d" % (name, i, attempt), timeout=3000)
+            if not v["ok"] and c["F3cRepaired"] == "FALSE":
+                # a tree in which the merge has been made deterministic (F3c repaired) is a behaviour of the model
+                # with F3cRepaired = TRUE only (two HTLCs with opposite dust status need both views at once)
+                c["F3cRepaired"] = "TRUE"
+                v2 = ck.validate(SPEC, "ChainActionsTrace", "ChainActionsTrace.cfg", p, constants=c,
+                                 name="val_%s_%d_%d_merge_repaired" % (name, i, attempt), timeout=3000)
+                if v2["ok"]:
+                    STATE["merge_repaired"] = True
+                    v = v2
             res.append((cur, v))
             os.remove(p)
             if v["ok"]:
@@ -437,6 +452,9 @@ def run(ck):
                      files=files, text=v["cex"])
 
     fams = report_quirks(ck, quirks, predicted, None)
+    if STATE.get("merge_repaired"):
+        ck.notes.append("the recorded runs are behaviours of the model only with F3cRepaired = TRUE: this tree merges the "
+                        "two remote HTLC sets deterministically (F3c repaired)")
 
     # ---- model prediction vs observation (one-HTLC classes are enumerated exhaustively by the model)
     obs1 = set()
